@@ -32,7 +32,7 @@ fn random_case(r: &ConvRecipe) -> Option<FwdCase> {
     let mut image = r.batch.clone();
     image.extend([r.depth, r.rows, r.cols]);
     let filters = vec![r.count, r.depth, fr, fc];
-    if numel(&image) > 3000 {
+    if numel(&image) > 5000 {
         return None;
     }
     Some(FwdCase {
@@ -63,8 +63,9 @@ pub fn campaigns(ctx: &Ctx) -> Stats {
         |i| Some(fwd(&cfgs[i as usize])),
     ));
     let total = t.pick(15000u64, 300000);
-    let strat = || {
-        (prop::collection::vec(1..=3usize, 0..=2), 1..=3usize, 1..=9usize, 1..=9usize, 1..=4usize, 1..=4usize, 1..=4usize, 1..=4usize, 1..=4usize, any::<u64>())
+    let mxi = t.pick(10usize, 14);
+    let strat = move || {
+        (prop::collection::vec(1..=3usize, 0..=2), 1..=3usize, 1..=mxi, 1..=mxi, 1..=4usize, 1..=4usize, 1..=4usize, 1..=4usize, 1..=4usize, any::<u64>())
             .prop_map(|(batch, depth, rows, cols, count, fr, fc, sr, sc, vseed)| ConvRecipe { batch, depth, rows, cols, count, fr, fc, sr, sc, vseed })
             .boxed()
     };
